@@ -762,3 +762,17 @@ def C_taint_absolute_coords(repo, clause):
     obs.append(Ob("Ctaint", clause, win, rets[0], ret_taint == [True, False, False, True],
                   "of the four image lists only the positions carry absolute coordinates (types and indices do not): %s" % ret_taint, slot="return-taint"))
     return obs
+
+
+def C_idx_extend(repo, clause):
+    """Index spaces inside Atoms.extend: `other` indices on the right, `self` indices on the left."""
+    fnobj = repo.fn("Atoms.extend")
+    for p in ("self", "other", "structure_index_map"):
+        if p not in fnobj.params:
+            raise AnalysisError("C-idx: Atoms.extend lost parameter %s" % p)
+    env = {"self": ("atoms", "S"), "other": ("atoms", "O"), "structure_index_map": ("map", Idx("O"), Idx("S")), "offsets": None}
+    W, f = isa.analyse(repo, "Atoms.extend", env)
+    obs = _collect(repo, W, clause, "Cidx")
+    if not any(not o.ok for o in obs):
+        floor("Cidx", "typed index obligations in Atoms.extend", len(obs), 9)
+    return obs
